@@ -113,6 +113,10 @@ def r2_identity(ctx, f, rep, eff):
             rep.check(g and wv['value'] == ('param', 0, 2) and wv.get('via') == 'mem::replace' and bool(rs) and not between,
                       'C10-R2', b.nname, 'identity := new_id only when different, immediately followed by reset()',
                       site=wv['span'], construct='replace-then-reset')
+        for j, x in enumerate(p.events):
+            if x['kind'] == 'call' and x['res'] == 'Foca::reset':
+                rep.check(any(i < j for i, _ in ws), 'C10-R2', b.nname, 'reset() happens only after the identity was replaced '
+                          '(a refused change resets nothing)', site=x['span'], construct='reset-needs-replace')
     rep.floor('C10-R2', n, 1, 'identity writes')
 
 
@@ -194,7 +198,7 @@ def r3_no_fabrication(ctx, f, rep):
                 break
             calls = {c['id']: c for c in p.calls()}
             for e in p.calls():
-                if e['res'] == 'member::Member::new' and e['block'] == bi and (cb.nname, bi) not in done:
+                if e['res'] == 'member::Member::new' and e['tblock'] == bi and (cb.nname, bi) not in done:
                     done.add((cb.nname, bi))
                     n += 1
                     inc = e['args'][1]
@@ -226,7 +230,7 @@ def r3_no_fabrication(ctx, f, rep):
             if (cb.nname, bi) in done:
                 break
             for e in p.calls():
-                if e['res'] == 'Foca::serialize_member' and e['block'] == bi and (cb.nname, bi) not in done:
+                if e['res'] == 'Foca::serialize_member' and e['tblock'] == bi and (cb.nname, bi) not in done:
                     done.add((cb.nname, bi))
                     n += 1
                     m = e['args'][1]
@@ -357,4 +361,11 @@ def check(ctx):
         r2_identity(ctx, f, rep, eff)
         r3_no_fabrication(ctx, f, rep)
         r4_rejoin_or_defunct(ctx, f, rep)
+        # wire-visible clause: the header reads self.identity / self.incarnation at send time (C07-R1 re-run)
+        from . import c07, c08
+        from .c09 import _Rename
+        c07.r1_r2_sender(ctx, f, _Rename(_Rename(rep, 'C07-R1', 'C10-R5'), 'C07-R2', 'C10-R5'))
+        rep.rule('C10-R5', 'every datagram\'s header carries the current identity and incarnation (C07-R1 re-run); Rejoin is '
+                           'notified exactly when the identity was switched (C08-R5 re-run)')
+        c08.r5_state_machine(ctx, f, _Rename(rep, 'C08-R5', 'C10-R5'), eff)
     rep.cur_config = None
